@@ -30,7 +30,8 @@ NextPrefix == c.k = "start" /\ \E p \in DOMAIN Prefixes, t \in PfxRows : c' = [k
 
 \* names eligible for the multiplicative conversion law: readable, defined, no offset (affine scales belong to C08)
 KeyOk(k) == KeyRead[k][1] >= 0 /\ TabNode[KeyRead[k][2]] # 0 /\ ~Table[KeyRead[k][2]].off
-KeyDim == [k \in DOMAIN Keys |-> IF KeyOk(k) THEN DefDim(KeyRead[k][2]) ELSE <<>>]
+ASSUME TLCSet(131, [k \in DOMAIN Keys |-> IF KeyOk(k) THEN DefDim(KeyRead[k][2]) ELSE <<>>])
+KeyDim == TLCGet(131)
 NextConv == c.k = "start" /\ \E i \in DOMAIN Keys, j \in DOMAIN Keys :
               /\ (i * 7 + j * 13 + Phase) % Stride = 0
               /\ KeyOk(i) /\ KeyOk(j) /\ KeyDim[i] = KeyDim[j]
